@@ -24,6 +24,7 @@ pub use serde_json::json;
 type Sink = Arc<dyn Fn(&'static str, Value) + Send + Sync>;
 type Gate = Arc<dyn Fn(&'static str, &Value) -> Option<BoxFuture<'static, ()>> + Send + Sync>;
 type BlockGate = Arc<dyn Fn(&'static str, &Value) + Send + Sync>;
+type Clock = Arc<dyn Fn(std::time::Instant) -> u64 + Send + Sync>;
 type SocketFactory =
     Arc<dyn Fn(&std::net::UdpSocket) -> Option<Arc<dyn quinn::AsyncUdpSocket>> + Send + Sync>;
 
@@ -32,7 +33,7 @@ static GATE: RwLock<Option<Gate>> = RwLock::new(None);
 static BLOCK_GATE: RwLock<Option<BlockGate>> = RwLock::new(None);
 static SOCKET_FACTORY: RwLock<Option<SocketFactory>> = RwLock::new(None);
 static JITTER_MS: RwLock<Option<u64>> = RwLock::new(None);
-static EPOCH: RwLock<Option<std::time::Instant>> = RwLock::new(None);
+static CLOCK: RwLock<Option<Clock>> = RwLock::new(None);
 static NEXT_ID: AtomicU64 = AtomicU64::new(1);
 
 pub fn set_sink(sink: Option<Sink>) {
@@ -55,8 +56,9 @@ pub fn set_jitter_ms(jitter: Option<u64>) {
     *JITTER_MS.write().unwrap() = jitter;
 }
 
-pub fn set_epoch(epoch: Option<std::time::Instant>) {
-    *EPOCH.write().unwrap() = epoch;
+/// Maps an instant to the harness' own time scale (milliseconds since its epoch).
+pub fn set_clock(clock: Option<Clock>) {
+    *CLOCK.write().unwrap() = clock;
 }
 
 pub(crate) fn next_id() -> u64 {
@@ -107,10 +109,8 @@ pub(crate) fn jitter(default: std::time::Duration) -> std::time::Duration {
 
 /// Milliseconds of `instant` since the harness' epoch (0 without one).
 pub(crate) fn ms(instant: std::time::Instant) -> u64 {
-    match *EPOCH.read().unwrap() {
-        Some(epoch) => instant.saturating_duration_since(epoch).as_millis() as u64,
-        None => 0,
-    }
+    let clock = CLOCK.read().unwrap().clone();
+    clock.map(|clock| clock(instant)).unwrap_or(0)
 }
 
 pub(crate) fn pid(peer_id: &PeerId) -> String {
